@@ -106,8 +106,9 @@ class PostgresImpl(SqlImpl):
     def fix_fn_types(cls, fn: ColFn, val: sqa.ColumnElement, *args: sqa.ColumnElement) -> sqa.ColumnElement:
         if isinstance(fn.op, ops.DatetimeExtract | ops.DateExtract):
             return sqa.cast(val, sqa.BigInteger)
-        elif fn.op in (ops.sum, ops.cum_sum):
+        elif fn.op in (ops.sum, ops.cum_sum) and not isinstance(args[0].type, sqa.types.NullType):
             # postgres sometimes switches types for `sum`
+            # (the result of an SQL function may be untyped: there is nothing to cast back to)
             return sqa.cast(val, args[0].type)
         return val
 
